@@ -86,6 +86,13 @@ CHECKS = {
             "carrying the status and the response, ClientError for 4xx and ServerError for 5xx. The status dimension is covered completely.",
             "The server body is one fixed JSON object; operations whose package cannot be imported are reported under an `unimportable` clause.",
             "4 C06"),
+    "C03": ("exploration", "bounded exhaustive enumeration of generated models x every document of their finite instance menus; structure/unstructure with the package's own converter in the runtime-only interpreter",
+            "Every model of the field space (33 property kinds x required x default, kinds x 12 name styles, pairs of kinds, pairs of name styles, colliding-name families "
+            "with every required pattern) x every document of its instance menu (per property absent / 2 typical / 1 edge value, all combinations) is structured into the "
+            "generated class and unstructured again by the package's bundled converter; the JSON must come back equal (absent optional may become null/[]/{}/declared "
+            "default; date-times compared as instants) and the Meta key maps must be inverse bijections onto the spec's property names.",
+            "Instance menus are finite (3 values per kind); each reference-valued container kind has its own target schema so that hook registration is not masked by another model of the same document.",
+            "4 C03"),
 }
 
 NOT_YET = {}
